@@ -59,6 +59,42 @@ def load_known():
     return known, fixed
 
 
+def replay(mod, modname, pid, path, tier, seed, njobs):
+    """./check <property> --replay <file>: re-decide the obligation recorded in a replay file on the current tree (and re-run its native
+    replay).  Exit 1 + VIOLATION line when it still fails, 0 when it is discharged now, 2 when undecided, 3 when it is no longer generated."""
+    try:
+        rec = json.load(open(path))
+    except Exception as e:
+        print(f'CHECKER-ERROR property={pid} cannot read replay file {path}: {e}')
+        return 3
+    name = rec.get('obligation')
+    rtier = rec.get('tier') if rec.get('tier') in ('quick', 'thorough') else tier
+    jobs = mod.jobs(rtier)
+    work = [(modname, j.name, rtier, seed, None) for j in jobs]
+    ctx = mp.get_context('fork')
+    with ctx.Pool(max(1, min(njobs, len(work))), maxtasksperchild=1) as pool:
+        results = pool.map(_run_job, work, chunksize=1)
+    hits = [o for r in results for o in r['obligations'] if o['name'] == name]
+    if not hits:
+        print(f'REPLAY property={pid} obligation={name}: not generated on the current tree (checker error or renamed obligation)')
+        return 3
+    st = 'refuted' if any(o['status'] == 'refuted' for o in hits) else ('discharged' if all(o['status'] == 'discharged' for o in hits) else 'unknown')
+    if st == 'refuted':
+        o = next(o for o in hits if o['status'] == 'refuted')
+        native = None
+        if hasattr(mod, 'native_replay'):
+            try:
+                native = mod.native_replay(o)
+            except Exception as e:
+                native = {'reproduced': False, 'error': f'{type(e).__name__}: {e}'}
+        print(f'REPLAY property={pid} obligation={name}: still refuted; model={json.dumps(o.get("model"), default=str)[:300]}; native={json.dumps(native, default=str)[:300]}')
+        tail = '' if (native and native.get('reproduced')) else ' no-failing-input-found'
+        print(f'VIOLATION property={pid} replay={path} obligation={name}{tail}')
+        return 1
+    print(f'REPLAY property={pid} obligation={name}: {st} on the current tree')
+    return 0 if st == 'discharged' else 2
+
+
 def safe(name):
     return re.sub(r'[^A-Za-z0-9_.\-\[\]]+', '_', name)[:150]
 
@@ -85,7 +121,7 @@ def main(argv=None):
         print(f'CHECKER-ERROR property={pid} cannot import {modname}')
         return 3
     if args.replay:
-        return mod.replay(args.replay)
+        return replay(mod, modname, pid, args.replay, tier, seed, args.jobs)
 
     jobs = mod.jobs(tier)
     if args.only:
